@@ -19,7 +19,9 @@ use crate::props::c18::block_on_simple;
 use crate::rt::{CheckResult, Ctx, Obs, Tier, idx};
 
 const CAPS: &[usize] = &[1, 2, 8, 128];
-const TOPICS: &[&str] = &["stats", "priority.window"];
+/// Topic pairs. Set 0 is what the control socket admits; the others go through the hub's own API (which takes any
+/// topic name) and are chosen so that one name is a prefix of the other, or empty.
+const TOPIC_SETS: &[[&str; 2]] = &[["stats", "priority.window"], ["stats", "stats.links"], ["priority.window", "priority"], ["", "stats"]];
 
 #[derive(Debug, Clone, Hash, Serialize, Deserialize)]
 pub enum Op {
@@ -43,6 +45,9 @@ pub struct Case {
     pub caps: Vec<u8>,
     pub publishers: u8,
     pub ops: Vec<Op>,
+    /// index into TOPIC_SETS
+    #[serde(default)]
+    pub topic_set: u8,
 }
 
 pub fn strategy(max_ops: usize) -> impl Strategy<Value = Case> {
@@ -58,7 +63,8 @@ pub fn strategy(max_ops: usize) -> impl Strategy<Value = Case> {
         3 => (any::<u16>(), any::<bool>()).prop_map(|(c, t)| Op::SubscribeVia(c, t)),
         2 => (any::<u16>(), any::<bool>()).prop_map(|(s, n)| Op::UnsubscribeVia(s, n)),
     ];
-    (vec(0u8..CAPS.len() as u8, 1..=4), 1u8..=3, vec(op, 1..max_ops)).prop_map(|(caps, publishers, ops)| Case { caps, publishers, ops })
+    (vec(0u8..CAPS.len() as u8, 1..=4), 1u8..=3, vec(op, 1..max_ops), prop_oneof![3 => Just(0u8), 1 => Just(1u8), 1 => Just(2u8), 1 => Just(3u8)])
+        .prop_map(|(caps, publishers, ops, topic_set)| Case { caps, publishers, ops, topic_set })
 }
 
 struct Conn {
@@ -122,6 +128,11 @@ pub fn check(case: &Case, obs: &mut Obs) -> CheckResult {
 }
 
 fn check_in_runtime(case: &Case, obs: &mut Obs) -> CheckResult {
+    #[allow(non_snake_case)]
+    let TOPICS: [&str; 2] = TOPIC_SETS[case.topic_set as usize % TOPIC_SETS.len()];
+    if case.topic_set % TOPIC_SETS.len() as u8 != 0 {
+        obs.class("topic-names-one-a-prefix-of-the-other");
+    }
     let hub = SubscriptionHub::new();
     let mut conns: Vec<Conn> = case
         .caps
@@ -219,6 +230,14 @@ fn check_in_runtime(case: &Case, obs: &mut Obs) -> CheckResult {
                 if conns[subs[si].conn].queued > 0 {
                     raced = true;
                 }
+            }
+            Op::SubscribeVia(c, t) if case.topic_set as usize % TOPIC_SETS.len() != 0 => {
+                // the control layer only admits the production topics: same as Subscribe
+                let ci = idx(*c, conns.len());
+                let topic = *t as usize;
+                let id = block_on_simple(conns[ci].hub.subscribe(TOPICS[topic], conns[ci].tx.clone()));
+                vensure!(subs.iter().all(|s| s.id != id), "subscription-id-reused", "op {oi}: subscription id {id} handed out twice");
+                subs.push(Sub { id, conn: ci, topic, unsubscribed: false, unsub_at: None, last_seen: vec![None; np], pruned_possible: false });
             }
             Op::SubscribeVia(c, t) => {
                 let ci = idx(*c, conns.len());
@@ -515,6 +534,78 @@ fn real_threads(ctx: &Ctx, rounds: usize) {
 /// a publisher loops over a large event with several slow subscribers ahead of the victim; the victim subscribes,
 /// unsubscribes, drains, waits for two more complete publishes and must find its channel empty. A stress (the
 /// overlap is the machine's), sound because the property promises it for every overlap.
+/// Interleavings at the await points *inside* one publish. On one thread an uncontended lock only yields when the
+/// task's cooperative budget (128 units per poll in tokio) is used up, so the publisher task first spends `burn`
+/// units on cheap hub calls: sweeping `burn` moves the forced yield across every await point of `publish`. The task
+/// queued behind it (an unsubscribe) then runs inside the publish, exactly where the budget ran out.
+#[derive(Debug, Clone, Hash, Serialize, Deserialize)]
+pub struct AwaitCase {
+    pub burn: u16,
+    pub doomed: u8,
+    pub others: u8,
+    /// the victim subscribes before (false) or after (true) the doomed ones (position in the hub's table)
+    pub victim_last: bool,
+}
+
+pub fn check_await(c: &AwaitCase, obs: &mut Obs) -> CheckResult {
+    let rt = tokio::runtime::Builder::new_current_thread().build().map_err(|e| crate::rt::Violation { sig: "harness".into(), msg: e.to_string() })?;
+    let hub = SubscriptionHub::new();
+    let (c_burn, c_doomed, c_others, victim_last) = (c.burn, c.doomed, c.others, c.victim_last);
+    let out: Result<(bool, usize, usize, bool), String> = rt.block_on(async move {
+        let mut keep = Vec::new();
+        for _ in 0..c_others {
+            let (tx, rx) = mpsc::channel::<String>(4);
+            hub.subscribe("stats", tx).await;
+            keep.push(rx);
+        }
+        let (vtx, mut vrx) = mpsc::channel::<String>(64);
+        let mut vid = String::new();
+        if !victim_last {
+            vid = hub.subscribe("stats", vtx.clone()).await;
+        }
+        for _ in 0..c_doomed {
+            // a subscriber whose connection is gone: the next publish has something to prune
+            let (tx, rx) = mpsc::channel::<String>(1);
+            hub.subscribe("stats", tx).await;
+            drop(rx);
+        }
+        if victim_last {
+            vid = hub.subscribe("stats", vtx.clone()).await;
+        }
+        let before = hub.len().await;
+        let (h1, h2) = (hub.clone(), hub.clone());
+        let vid2 = vid.clone();
+        let publisher = tokio::spawn(async move {
+            for _ in 0..c_burn {
+                let _ = h1.is_empty().await;
+            }
+            h1.publish("stats", json!({"n": 1})).await;
+        });
+        let unsub = tokio::spawn(async move { h2.unsubscribe(&vid2).await });
+        publisher.await.map_err(|e| e.to_string())?;
+        let removed = unsub.await.map_err(|e| e.to_string())?;
+        // whatever reached the victim before its unsubscribe completed is fine; drain it
+        let mut early = 0usize;
+        while vrx.try_recv().is_ok() {
+            early += 1;
+        }
+        hub.publish("stats", json!({"n": 2})).await;
+        let late = vrx.try_recv().is_ok();
+        let after = hub.len().await;
+        drop(keep);
+        Ok((removed, before, after, late || early > 1))
+    });
+    let (removed, before, after, late) = out.map_err(|e| crate::rt::Violation { sig: "harness".into(), msg: e })?;
+    obs.class(if removed { "unsubscribe-found-the-id" } else { "unsubscribe-id-already-gone" });
+    obs.nontrivial = c.doomed > 0;
+    vensure!(removed, "unsubscribe-returned-false", "burn {}: unsubscribe of a live subscription returned false", c.burn);
+    vensure!(!late, "event-after-unsubscribe", "burn {}: the subscription was unsubscribed (returned true) while a publish was suspended at one of its await points; the next publish still delivered to it", c.burn);
+    let expect = before - 1 - c.doomed as usize;
+    vensure!(after == expect, "hub-count-after-prune", "burn {}: hub holds {after} subscriptions after the unsubscribe and two publishes, expected {expect} (of {before}: one unsubscribed, {} closed)", c.burn, c.doomed);
+    obs.sample = Some(json!({"burn": c.burn, "doomed": c.doomed, "others": c.others}));
+    Ok(())
+}
+
 fn unsubscribe_race(ctx: &Ctx, rounds: usize) {
     use std::sync::atomic::{AtomicBool, AtomicU64, Ordering};
     if ctx.failed() {
@@ -652,10 +743,10 @@ fn socket_push_order(ctx: &Ctx, bursts: usize) {
 
 pub fn run(ctx: &Ctx) -> &'static str {
     ctx.assume("hub futures are polled by hand with a no-op waker: a publish must become Ready within 3 polls while nothing else runs, so waiting on a full or closed subscriber shows up as a pending future");
-    ctx.assume("no task suspends while holding the hub lock, so on one thread interleavings at await points are interleavings of whole operations; lock contention between OS threads is only sampled by the real-thread tier (thorough)");
+    ctx.assume("no task suspends while holding the hub lock, so in the interleavings part the operations are interleaved whole; the await points inside one publish are reached by the await-points part (the publisher task's cooperative budget runs out at a swept position, the next task runs there); lock contention between OS threads is only sampled by the stress tiers");
     ctx.assume("delivery itself is not promised (full channels drop): order, at-most-once, topic, own id, nothing after unsubscribe, pruning and non-blocking publish are asserted; delivered events are counted so a vacuous pass is visible");
     for (file, body) in ctx.replay_files() {
-        if !ctx.replay_case::<Case, _>("interleavings", &file, &body, check) {
+        if !ctx.replay_case::<Case, _>("interleavings", &file, &body, check) && !ctx.replay_case::<AwaitCase, _>("await-points", &file, &body, check_await) {
             if body["part"].as_str() == Some("unsubscribe-race") {
                 unsubscribe_race(ctx, 5_000);
             } else if body["part"].as_str() == Some("socket-push-order") {
@@ -675,6 +766,17 @@ pub fn run(ctx: &Ctx) -> &'static str {
         ctx.tier.pick(100_000, 1_000_000),
         || strategy(mo),
         |_| check,
+    );
+    let burns: u16 = 400;
+    let cases = (0..=burns).flat_map(|burn| {
+        [(1u8, 0u8), (1, 3), (2, 0), (3, 5), (0, 2)].into_iter().flat_map(move |(doomed, others)| [false, true].into_iter().map(move |victim_last| AwaitCase { burn, doomed, others, victim_last }))
+    });
+    ctx.enumerate(
+        "await-points",
+        "a publish suspended at each of its await points: the publisher task spends 0..400 units of tokio's cooperative budget before publishing (the forced yield moves across every lock acquisition of publish), an unsubscribe task runs where it yields; 0..3 closed subscribers to prune, 0..5 bystanders, victim before / after the closed ones; afterwards the victim gets nothing from the next publish and the hub's count is exact; non-trivial = the publish had something to prune",
+        true,
+        cases,
+        check_await,
     );
     if ctx.tier == Tier::Thorough && !ctx.failed() {
         real_threads(ctx, 6);
